@@ -35,22 +35,22 @@ type fmapSpec struct {
 }
 
 type tnode struct {
-	Key     string
-	In, Out ty
-	Dyn     dyn
-	Leaves  []leaf `json:",omitempty"` // dMap: the entries
-	XKind   dyn    // dPtr/dRec: what field X holds (dNil, dStr, dMap, dPtr, dNilPtr)
-	WithP   bool   `json:",omitempty"`
-	MLeaves []leaf `json:",omitempty"` // dPtr/dRec: field M (nil = nil map)
-	Para    int    // native paradigms, bit set of pI|pS|pC|pT
-	Lazy    bool   `json:",omitempty"` // dSame + native Transform: hands the input stream on without reading it
-	Pass    bool   `json:",omitempty"` // AddPassthroughNode
-	InKey   string `json:",omitempty"`
-	OutKey  string `json:",omitempty"`
-	Seed    uint64 // chunking of the node's native stream output
-	Map     *fmapSpec `json:",omitempty"` // workflow: mapping on the single incoming edge
-	JoinKeys []string `json:",omitempty"` // workflow: fan-in, predecessor i is mapped ToField(JoinKeys[i])
-	Sub     *tspec `json:",omitempty"` // a nested graph / chain / workflow
+	Key      string
+	In, Out  ty
+	Dyn      dyn
+	Leaves   []leaf    `json:",omitempty"` // dMap: the entries
+	XKind    dyn       // dPtr/dRec: what field X holds (dNil, dStr, dMap, dPtr, dNilPtr)
+	WithP    bool      `json:",omitempty"`
+	MLeaves  []leaf    `json:",omitempty"` // dPtr/dRec: field M (nil = nil map)
+	Para     int       // native paradigms, bit set of pI|pS|pC|pT
+	Lazy     bool      `json:",omitempty"` // dSame + native Transform: hands the input stream on without reading it
+	Pass     bool      `json:",omitempty"` // AddPassthroughNode
+	InKey    string    `json:",omitempty"`
+	OutKey   string    `json:",omitempty"`
+	Seed     uint64    // chunking of the node's native stream output
+	Map      *fmapSpec `json:",omitempty"` // workflow: mapping on the single incoming edge
+	JoinKeys []string  `json:",omitempty"` // workflow: fan-in, predecessor i is mapped ToField(JoinKeys[i])
+	Sub      *tspec    `json:",omitempty"` // a nested graph / chain / workflow
 }
 
 // effIn / effOut: the declared types as the surrounding graph sees them.
@@ -77,12 +77,12 @@ type tseg struct {
 }
 
 type tspec struct {
-	Cont     string // "pregel" | "dag" | "chain" | "workflow"
-	In, Out  ty
-	Segs     []*tseg
-	EndMap   *fmapSpec `json:",omitempty"` // workflow: mapping on the edge into END
-	EndJoin  []string  `json:",omitempty"` // workflow: fan-in at END
-	Atomic   bool      `json:",omitempty"` // every stream of this program is a single chunk
+	Cont    string // "pregel" | "dag" | "chain" | "workflow"
+	In, Out ty
+	Segs    []*tseg
+	EndMap  *fmapSpec `json:",omitempty"` // workflow: mapping on the edge into END
+	EndJoin []string  `json:",omitempty"` // workflow: fan-in at END
+	Atomic  bool      `json:",omitempty"` // every stream of this program is a single chunk
 }
 
 func (s *tspec) digest() string {
@@ -193,8 +193,8 @@ type rres struct {
 	Soft     map[string]bool
 	OutMulti bool
 	OutSTy   ty
-	Events      map[string]bool
-	Execs       int
+	Events   map[string]bool
+	Execs    int
 }
 
 func (r *rres) event(e string) {
@@ -213,27 +213,28 @@ func (r *rres) soft(m string) {
 
 func (r *rres) stopped() bool { return r.Fail != "" || r.Hazard != "" }
 
-// siteEvents: the nil sites that name a violation signature (where an untyped nil meets a
-// mechanism of the framework); the other events are only counted.
-var siteEvents = map[string]bool{
-	"nil-node-input": true, "nil-branch-input": true, "nil-under-input-key": true, "nil-under-output-key": true,
-	"nil-at-fan-in": true, "nil-mapped": true, "nil-at-END": true,
+// sitePriority: the nil sites that name a violation signature (where an untyped nil meets a
+// mechanism of the framework), most specific first; the signature carries the first one that
+// occurred in the run. The other events are only counted.
+var sitePriority = []string{
+	"nil-at-fan-in", "nil-under-input-key", "nil-under-output-key", "nil-branch-input", "nil-mapped", "nil-at-END", "nil-node-input",
 }
 
 func (r *rres) eventsStr() string {
-	var ks []string
-	for k := range r.Events {
-		if siteEvents[k] {
-			ks = append(ks, k)
+	for _, s := range sitePriority {
+		if r.Events[s] {
+			return s
 		}
 	}
-	if len(ks) == 0 {
-		return "no-nil-site"
+	return "no-nil-site"
+}
+
+func (r *rres) allEvents() string {
+	ks := make([]string, 0, len(r.Events))
+	for k := range r.Events {
+		ks = append(ks, k)
 	}
 	sort.Strings(ks)
-	if len(ks) > 2 {
-		ks = append(ks[:2:2], "more")
-	}
 	return strings.Join(ks, "+")
 }
 
